@@ -87,12 +87,16 @@ def one_step_ok(u, r):
                 i = u.find(tail, i + 1)
     for v in values(u, redirect_like_only=True):
         t = unquote(v)
-        cands = {t, "https://" + t}
+        # an absolute target is taken as it is; a rooted one ('/x') must come back JOINED to the input, never bare
+        cands = set() if t.startswith("/") else {t, "https://" + t}
         try:
-            cands.add(urljoin(u, t))
-            if not PROTO_RE.match(u):
+            if PROTO_RE.match(u):
+                cands.add(urljoin(u, t))
+            else:
                 # a URL without protocol is joined as if it had one (otherwise it would be read as a path)
                 cands.add(urljoin("http://" + u, t)[7:])
+                if not t.startswith("/"):
+                    cands.add(urljoin(u, t))
         except ValueError:
             pass
         if r in cands:
